@@ -60,6 +60,21 @@ func (fr *Frame) execCall(cc *ssa.CallCommon, st *State, site ssa.Instruction, d
 	}
 	// 3. static callee
 	if fn := cc.StaticCallee(); fn != nil {
+		if fr.parent == nil && fr.contract != nil && fr.contract.AtCall != nil && fr.dry == 0 {
+			for _, key := range []string{funcKey(fn), fn.Name()} {
+				for _, cl := range fr.contract.AtCall[key] {
+					if site != nil {
+						fr.evalPoint = site.Block()
+					}
+					t, sks, err := fr.evalGoal(cl, st, fr.entry, nil)
+					fr.evalPoint = nil
+					if err != nil {
+						return Value{}, fmt.Errorf("%s:%d: %v", cl.File, cl.Line, err)
+					}
+					vc.obligeHinted(st, "atcall", key+":"+fr.contract.clauseName(cl), t, sks, sitePos(site), cl.Text)
+				}
+			}
+		}
 		if v, ok, err := fr.intrinsic(fn, cc, args, st, site); ok || err != nil {
 			return v, err
 		}
